@@ -163,3 +163,34 @@ Theorem C02_source_new_512 : forall w seq f tab t fuel, width_ok w ->
     (g_hqwt512_rank fuel) (g_hqwt512_rank_unchecked fuel) (g_hqwt512_select fuel) (g_hqwt512_select_unchecked fuel).
 Proof. exact g_hqwt512_new_end_to_end. Qed.
 Print Assumptions C02_source_new_512.
+
+(* ---- the code assignment craft_wm_codes of src/quadwt/huffqwt.rs REGENERATED as written (T5, Gen/FnsCraft.v: the hash map
+   as the list of its pairs in ANY iteration order, lengths doubled to bits, the stable sort by length, the in-place expansion
+   of the fixed-size scratch array with its four writes per entry, the reversal of the 2-bit fragments, the table as two
+   lists): whenever the hand model returns a table the regenerated function returns the same table, hence for every
+   admissible request and every iteration order of the hash map it returns a compatible table (the hypothesis of the tree
+   theorems above).  The converse fails on infeasible length profiles (Kraft sum > 1): the source reads untouched zeros of
+   the scratch array and returns clashing codes where the hand model faults (Proofs/FnsCraftOk.v,
+   g_craft_infeasible_example); such profiles are never produced by the coder for a non-empty sequence. *)
+From QwtModel Require Import Loops Codes CraftP FnsCraft FnsCraftOk.
+Theorem C02_source_craft_sim : forall fuel freq sigma tab,
+  let f := sort_by_snd (map dbl freq) in
+  Forall (fun p => 2 * snd p < 2 ^ 32) freq -> 4 * len freq < 2 ^ 64 -> sigma + 1 < 2 ^ 64 ->
+  (17 <= fuel)%nat ->
+  craft4 f sigma = Val tab ->
+  g_craft_wm_codes4 fuel freq sigma = Val (map pc_content tab, map pc_len tab).
+Proof. exact g_craft_sim. Qed.
+Print Assumptions C02_source_craft_sim.
+Theorem C02_source_craft_end_to_end : forall fuel freq sigma,
+  let f := sort_by_snd (map dbl freq) in
+  craft_input_ok 2 f sigma -> Forall (fun p => snd p <= 32) f -> craft_fits 2 f (len f * 4) = true ->
+  sigma + 1 < 2 ^ 64 -> (17 <= fuel)%nat ->
+  exists tab, g_craft_wm_codes4 fuel freq sigma = Val (map pc_content tab, map pc_len tab) /\
+    craft4 f sigma = Val tab /\
+    len tab = sigma + 1 /\
+    (forall sym l, In (sym, l) f -> exists c, nthN tab sym = Some c /\ pc_len c = l /\ code_wf 2 c = true) /\
+    (forall sym v, In (sym, v) freq -> exists c, nthN tab sym = Some c /\ pc_len c = 2 * v /\ code_wf 2 c = true) /\
+    (forall sym, ~ In sym (map fst f) -> sym <= sigma -> nthN tab sym = Some pc_zero) /\
+    code_wm_ok 2 tab (map fst f) = true.
+Proof. exact g_craft_end_to_end. Qed.
+Print Assumptions C02_source_craft_end_to_end.
